@@ -672,7 +672,7 @@ fn gen_inline(r: &mut Lcg, tok: &mut u32, depth: u32) -> String {
             0 if depth < 2 => { let el = ["em", "strong", "code", "span", "b"][r.below(5) as usize]; s.push_str(&format!("<{}>{}</{}> ", el, gen_inline(r, tok, depth + 1), el)); }
             1 => s.push_str(&format!("w\u{4e2d}\u{6587}{} ", tok)),
             2 => s.push_str(&format!("verylongword{}abcdefghij ", tok)),
-            3 => s.push_str(&format!("<a href=\"h{}\">lk{}</a> ", tok, tok)),
+            3 => s.push_str(&format!("<a href=\"{}{}\">lk{}</a> ", if r.below(3) == 0 { "http://x/\u{4e2d}\u{6587}\u{5b57}" } else { "h" }, tok, tok)),
             4 => s.push_str(&format!("x{}<br>", tok)),
             _ => s.push_str(&format!("w{} ", tok)),
         }
@@ -680,6 +680,12 @@ fn gen_inline(r: &mut Lcg, tok: &mut u32, depth: u32) -> String {
     s
 }
 fn gen_block(r: &mut Lcg, tok: &mut u32, depth: u32) -> String {
+    let b = gen_block0(r, tok, depth);
+    // some blocks and list items carry an id (fragment markers must not disturb anything)
+    if r.below(4) == 0 { *tok += 1; let id = format!(" id=\"i{}\"", tok); if let Some(p) = b.find('>') { let mut o = b.clone(); o.insert_str(p, &id); return o.replacen("<li>", &format!("<li id=\"j{}\">", tok), 1).replacen("<dd>", &format!("<dd id=\"k{}\">", tok), 1); } }
+    b
+}
+fn gen_block0(r: &mut Lcg, tok: &mut u32, depth: u32) -> String {
     match r.below(if depth < 2 { 9 } else { 4 }) {
         0 | 1 => format!("<p>{}</p>", gen_inline(r, tok, 0)),
         2 => format!("<h{}>{}</h{}>", 1 + depth, gen_inline(r, tok, 1), 1 + depth),
@@ -695,8 +701,8 @@ pub fn bnd_doc() {
     use html2text::render::TrivialDecorator;
     use unicode_width::UnicodeWidthStr;
     let (ndoc, maxw) = if thorough() { (1500u32, 40usize) } else { (300u32, 24usize) };
-    let mut rep = Report::new("bnd_doc", &format!("{} seeded table-free documents (p, h1-h3, pre, ul, ol, blockquote, div, dl nested to depth 3; words, wide characters, over-long words, links, br, nested inline elements), widths 1..={}: \
-        plain: no panic, every line within the width unless an error is returned (C02); with allow_width_overflow: always Ok and the same text when the strict rendering is Ok (C11); \
+    let mut rep = Report::new("bnd_doc", &format!("{} seeded table-free documents (p, h1-h3, pre, ul, ol, blockquote, div, dl nested to depth 3; words, wide characters, over-long words, links with ASCII and wide-character targets, br, nested inline elements, ids on blocks and list items), widths 1..={}: \
+        plain: no panic, every line within the width unless an error is returned (C02); with link footnotes at widths >= 2: lines within the width (C02); with allow_width_overflow: always Ok and the same text when the strict rendering is Ok (C11); \
         trivial decorator: the non-space characters of the output are exactly those of the document text, in order (C03, C16)", ndoc, maxw));
     let mut r = Lcg(0x2545f4914f6cdd1d ^ seed());
     for _ in 0..ndoc {
@@ -705,6 +711,7 @@ pub fn bnd_doc() {
         for _ in 0..1 + r.below(3) { html.push_str(&gen_block(&mut r, &mut tok, 0)); }
         let text: String = { let mut o = String::new(); let mut intag = false; for ch in html.chars() { if ch == '<' { intag = true; } else if ch == '>' { intag = false; } else if !intag && !ch.is_whitespace() { o.push(ch); } } o };
         for w in 1..=maxw {
+            if w == 1 && html.contains("http://x/") { continue; }     // keeps clear of the recorded finding D13 (footnote of a wide-character target at width 1)
             let input = format!("width={} html={}", w, html);
             rep.case(&input);
             let h = html.clone();
@@ -716,10 +723,213 @@ pub fn bnd_doc() {
                 Ok(Err(e)) => { rep.found(&input, &format!("error {:?} although width overflow is allowed", e)); continue; }
                 Ok(Ok(o)) => if let Some(s) = &strict { if *s != o { rep.found(&input, &format!("allow_width_overflow changed a rendering that fits: {:?} vs {:?}", s, o)); continue; } },
             }
+            if w >= 2 {
+                let h = html.clone();
+                match panic::catch_unwind(move || config::plain().link_footnotes(true).string_from_read(h.as_bytes(), w)) {
+                    Err(_) => { rep.found(&input, "panic (link_footnotes)"); continue; }
+                    Ok(Ok(o)) => if let Some(l) = o.lines().find(|l| UnicodeWidthStr::width(*l) > w) { rep.found(&input, &format!("with link footnotes: line {:?} is {} columns wide", l, UnicodeWidthStr::width(l))); continue; },
+                    Ok(Err(_)) => {}
+                }
+            }
             let h = html.clone();
             if let Ok(Ok(o)) = panic::catch_unwind(move || config::with_decorator(TrivialDecorator::new()).allow_width_overflow().string_from_read(h.as_bytes(), w)) {
                 let got: String = o.chars().filter(|c| !c.is_whitespace()).collect();
                 if got != text { rep.found(&input, &format!("trivial decorator: output characters {:?}, document characters {:?}", got, text)); }
+            }
+        }
+    }
+    rep.finish();
+}
+
+// ------------------------------------------------------------------------------------------------------------------------------
+// C04: paragraph wrapping == reference greedy wrapper (add_inline_text / add_text / flush_word / flush_word_hard_wrap composed over text
+// nodes and inline elements by do_render_node).
+fn greedy(words: &[String], w: usize) -> Vec<String> {
+    use unicode_width::{UnicodeWidthChar, UnicodeWidthStr};
+    let mut lines: Vec<String> = vec![];
+    let mut cur = String::new();
+    for word in words {
+        let ww = UnicodeWidthStr::width(word.as_str());
+        let cw = UnicodeWidthStr::width(cur.as_str());
+        if ww <= w {
+            if cur.is_empty() { cur = word.clone(); }
+            else if cw + 1 + ww <= w { cur.push(' '); cur.push_str(word); }
+            else { lines.push(std::mem::take(&mut cur)); cur = word.clone(); }
+        } else {
+            if !cur.is_empty() { lines.push(std::mem::take(&mut cur)); }
+            for ch in word.chars() {
+                let c = UnicodeWidthChar::width(ch).unwrap_or(0);
+                if UnicodeWidthStr::width(cur.as_str()) + c > w && !cur.is_empty() { lines.push(std::mem::take(&mut cur)); }
+                cur.push(ch);
+            }
+        }
+    }
+    if !cur.is_empty() { lines.push(cur); }
+    lines
+}
+pub fn bnd_c04() {
+    let (npar, maxw) = if thorough() { (1200u32, 40usize) } else { (250u32, 30usize) };
+    let mut rep = Report::new("bnd_c04", &format!("{} seeded paragraphs of 1..12 words (ASCII words of 1..9 letters, wide-character words, words with a combining mark), split arbitrarily across text nodes and \
+        em/strong/code/span elements, white-space runs of spaces/newlines/tabs; widths 1..={}; undecorated plain rendering: the lines equal those of a reference greedy wrapper, \
+        an error is returned exactly when a wide character meets width 1; also under max_wrap_width m < width (effective width m)", npar, maxw));
+    let mut r = Lcg(0x6a09e667f3bcc908 ^ seed());
+    for _ in 0..npar {
+        let nw = 1 + r.below(12) as usize;
+        let mut words: Vec<String> = vec![];
+        for _ in 0..nw {
+            let len = 1 + r.below(9) as usize;
+            let kind = r.below(8);
+            let mut s = String::new();
+            for k in 0..len {
+                if kind == 0 { s.push(['\u{4e2d}', '\u{6587}', '\u{5b57}'][r.below(3) as usize]); }
+                else { s.push((b'a' + r.below(26) as u8) as char); if kind == 1 && k == 0 { s.push('\u{301}'); } }
+            }
+            words.push(s);
+        }
+        // html: words joined by white-space runs, with inline elements opened/closed between or inside words
+        let mut html = String::from("<p>");
+        let mut open: Vec<&str> = vec![];
+        for (i, wd) in words.iter().enumerate() {
+            if i > 0 { html.push_str([" ", "\n", "  ", " \t ", "\n  "][r.below(5) as usize]); }
+            let cs: Vec<char> = wd.chars().collect();
+            let cut = if cs.len() > 1 && r.below(4) == 0 { 1 + r.below(cs.len() as u64 - 1) as usize } else { cs.len() };
+            // never cut between a letter and its combining mark
+            let cut = if cut < cs.len() && cs[cut] == '\u{301}' { cs.len() } else { cut };
+            html.push_str(&cs[..cut].iter().collect::<String>());
+            match r.below(5) {
+                0 if open.len() < 2 => { let el = ["em", "strong", "code", "span"][r.below(4) as usize]; html.push_str(&format!("<{}>", el)); open.push(el); }
+                1 if !open.is_empty() => { let el = open.pop().unwrap(); html.push_str(&format!("</{}>", el)); }
+                _ => {}
+            }
+            html.push_str(&cs[cut..].iter().collect::<String>());
+        }
+        while let Some(el) = open.pop() { html.push_str(&format!("</{}>", el)); }
+        html.push_str("</p>");
+        let has_wide = words.iter().any(|w| w.chars().any(|c| unicode_width::UnicodeWidthChar::width(c) == Some(2)));
+        for w in 1..=maxw { for mww in [None, Some(1 + (w * 2) / 3)] {
+            let eff = mww.map(|m: usize| m.min(w)).unwrap_or(w);
+            let input = format!("width={} max_wrap_width={:?} html={}", w, mww, html);
+            rep.case(&input);
+            let h = html.clone();
+            let r2 = panic::catch_unwind(move || { let c = config::plain_no_decorate(); let c = if let Some(m) = mww { c.max_wrap_width(m) } else { c }; c.string_from_read(h.as_bytes(), w) });
+            match r2 {
+                Err(_) => rep.found(&input, "panic"),
+                Ok(Err(e)) => if !(has_wide && eff == 1) { rep.found(&input, &format!("error {:?} although every character fits", e)); },
+                Ok(Ok(out)) => {
+                    if has_wide && eff == 1 { rep.found(&input, &format!("no error although a wide character cannot fit: {:?}", out)); continue; }
+                    let got: Vec<String> = out.lines().map(|l| l.to_string()).collect();
+                    let want = greedy(&words, eff);
+                    if got != want { rep.found(&input, &format!("lines {:?}, greedy reference {:?}", got, want)); }
+                }
+            }
+        }}
+    }
+    rep.finish();
+}
+
+// ------------------------------------------------------------------------------------------------------------------------------
+// C12: preformatted blocks (process_dom_node pre arm, do_render_node, new_line_hard, add_text pre branch composed).
+fn expand_tabs(s: &str) -> String {
+    use unicode_width::UnicodeWidthChar;
+    let mut out = String::new(); let mut col = 0usize;
+    for ch in s.chars() {
+        if ch == '\t' { let n = 8 - col % 8; for _ in 0..n { out.push(' '); } col += n; }
+        else { out.push(ch); col += UnicodeWidthChar::width(ch).unwrap_or(0); }
+    }
+    out
+}
+pub fn bnd_c12() {
+    use unicode_width::UnicodeWidthStr;
+    let nblk = if thorough() { 1500u32 } else { 300u32 };
+    let mut rep = Report::new("bnd_c12", &format!("{} seeded <pre> blocks of 1..6 source lines (words, runs of 1..5 spaces, tabs, leading and trailing spaces, empty interior lines, wide characters; line breaks \
+        written as newline or <br>; optionally inside a list item or quote), widths 1..=40: when every expanded source line fits the available width the block is reproduced line for line \
+        (tabs to 8-column stops, interior blank lines kept, trailing spaces removed); otherwise every output line is within the width and the non-space characters are preserved in order", nblk));
+    let mut r = Lcg(0xbb67ae8584caa73b ^ seed());
+    for _ in 0..nblk {
+        let nl = 1 + r.below(6) as usize;
+        let mut src: Vec<String> = vec![];
+        for li in 0..nl {
+            let mut s = String::new();
+            if li > 0 && li + 1 < nl && r.below(6) == 0 { src.push(s); continue; }     // interior blank line
+            for k in 0..1 + r.below(4) {
+                if k > 0 || r.below(4) == 0 { match r.below(6) { 0 => s.push('\t'), 1 => { for _ in 0..1 + r.below(3) { s.push(' '); } s.push('\t'); } _ => { for _ in 0..1 + r.below(5) { s.push(' '); } } } }
+                if r.below(7) == 0 { s.push_str("\u{4e2d}\u{6587}"); } else { for _ in 0..1 + r.below(6) { s.push((b'a' + r.below(26) as u8) as char); } }
+            }
+            if r.below(5) == 0 { s.push_str("  "); }
+            src.push(s);
+        }
+        // the first and the last line carry text (leading newline after <pre> and trailing empty lines are special in HTML)
+        if src[0].trim().is_empty() { src[0] = "h".to_string(); }
+        let lastn = src.len() - 1; if src[lastn].trim().is_empty() { src[lastn] = "t".to_string(); }
+        // every line break is written as a newline or as <br>, independently
+        let br_mode = r.below(3);
+        let mut body = String::new();
+        for (k, l) in src.iter().enumerate() { if k > 0 { body.push_str(if br_mode == 0 || (br_mode == 1 && r.below(2) == 0) { "\n" } else { "<br>" }); } body.push_str(l); }
+        let (pre, post, indent) = match r.below(4) { 0 => ("<ul><li>", "</li></ul>", 2usize), 1 => ("<blockquote>", "</blockquote>", 2), _ => ("", "", 0) };
+        let html = format!("{}<pre>{}</pre>{}", pre, body, post);
+        let expanded: Vec<String> = src.iter().map(|l| expand_tabs(l)).collect();
+        let maxlen = expanded.iter().map(|l| UnicodeWidthStr::width(l.as_str())).max().unwrap_or(0);
+        let srcchars: String = src.iter().flat_map(|l| l.chars()).filter(|c| !c.is_whitespace()).collect();
+        for w in 1..=40usize {
+            let input = format!("width={} html={}", w, html.replace('\n', "\\n").replace('\t', "\\t"));
+            rep.case(&input);
+            let h = html.clone();
+            let out = match panic::catch_unwind(move || config::plain().string_from_read(h.as_bytes(), w)) { Ok(Ok(s)) => s, Ok(Err(_)) => continue, Err(_) => { rep.found(&input, "panic"); continue; } };
+            if let Some(l) = out.lines().find(|l| UnicodeWidthStr::width(*l) > w) { rep.found(&input, &format!("line {:?} wider than {}", l, w)); continue; }
+            let prefixes = ["* ", "> ", "  "];
+            let strip = |l: &str| -> String { if indent == 0 { l.to_string() } else { let mut t = l; for p in prefixes { if let Some(x) = l.strip_prefix(p) { t = x; break; } } if l.trim() == ">" || l.trim() == "*" { String::new() } else { t.to_string() } } };
+            let body_lines: Vec<String> = out.lines().map(|l| strip(l)).collect();
+            let got_chars: String = body_lines.iter().flat_map(|l| l.chars()).filter(|c| !c.is_whitespace()).collect();
+            if got_chars != srcchars { rep.found(&input, &format!("non-space characters {:?}, source {:?}; output {:?}", got_chars, srcchars, out)); continue; }
+            if w >= indent + maxlen {
+                let want: Vec<String> = expanded.iter().map(|l| l.trim_end().to_string()).collect();
+                let got: Vec<String> = body_lines.iter().map(|l| l.trim_end().to_string()).collect();
+                if got != want { rep.found(&input, &format!("lines {:?}, expected the source lines {:?}", got, want)); }
+            }
+        }
+    }
+    rep.finish();
+}
+
+// ------------------------------------------------------------------------------------------------------------------------------
+// C15: each layout option has exactly its documented effect (size estimation, option plumbing through sub-renderers and tables).
+fn rules_of(s: &str) -> Vec<String> { s.lines().filter(|l| !l.is_empty() && l.chars().all(|c| is_rule(c) || c == '/')).map(|l| l.to_string()).collect() }
+pub fn bnd_c15() {
+    let ndoc = if thorough() { 600u32 } else { 150u32 };
+    let mut rep = Report::new("bnd_c15", &format!("{} seeded documents (the table-free grammar of bnd_doc plus tables with links in cells), widths 8..=40 step 4: \
+        max_wrap_width(m >= width) changes nothing; pad_block_width only appends trailing spaces; unicode_strikeout(false) == output with U+0336 deleted; no_table_borders and raw_mode leave no box-drawing character; \
+        link_footnotes(false) removes the references and the list and leaves the table rules where they were", ndoc));
+    let mut r = Lcg(0x3c6ef372fe94f82b ^ seed());
+    for i in 0..ndoc {
+        let mut tok = 0;
+        let mut html = String::new();
+        if i % 2 == 0 { for _ in 0..1 + r.below(2) { html.push_str(&gen_block(&mut r, &mut tok, 0)); } html.push_str("<p>a <s>struck text</s> b</p>"); }
+        else {
+            html.push_str("<table>");
+            for _ in 0..1 + r.below(3) { html.push_str("<tr>"); for _ in 0..2 { tok += 1; if r.below(2) == 0 { html.push_str(&format!("<td>c{} <a href=\"http://h/{}\">link{}</a> t</td>", tok, tok, tok)); } else { html.push_str(&format!("<td>cell{} words here</td>", tok)); } } html.push_str("</tr>"); }
+            html.push_str("</table><p>after <a href=\"u\">l</a></p>");
+        }
+        for w in (8..=40usize).step_by(4) {
+            let input = format!("width={} html={}", w, html);
+            rep.case(&input);
+            let run = |f: &dyn Fn(config::Config<html2text::render::PlainDecorator>) -> config::Config<html2text::render::PlainDecorator>| -> Option<String> {
+                let h = html.clone();
+                let c = f(config::plain());
+                panic::catch_unwind(panic::AssertUnwindSafe(move || c.string_from_read(h.as_bytes(), w).ok())).unwrap_or(None)
+            };
+            let base = match run(&|c| c) { Some(s) => s, None => continue };
+            if let Some(o) = run(&|c| c.max_wrap_width(w + 5)) { if o != base { rep.found(&input, &format!("max_wrap_width({}) >= width changed the output: {:?} vs {:?}", w + 5, o, base)); } }
+            if let Some(o) = run(&|c| c.pad_block_width()) {
+                let a: Vec<&str> = o.lines().map(|l| l.trim_end()).collect(); let b: Vec<&str> = base.lines().map(|l| l.trim_end()).collect();
+                if a != b { rep.found(&input, &format!("pad_block_width changed more than trailing spaces: {:?} vs {:?}", o, base)); }
+            }
+            if let Some(o) = run(&|c| c.unicode_strikeout(false)) { let d: String = base.chars().filter(|c| *c != '\u{336}').collect(); if o != d { rep.found(&input, &format!("unicode_strikeout(false) is not the output without U+0336: {:?} vs {:?}", o, d)); } }
+            if let Some(o) = run(&|c| c.no_table_borders()) { if o.chars().any(|c| is_rule(c) || c == '\u{2502}') { rep.found(&input, &format!("no_table_borders left box-drawing characters: {:?}", o)); } }
+            if let Some(o) = run(&|c| c.raw_mode(true)) { if o.chars().any(|c| is_rule(c) || c == '\u{2502}') { rep.found(&input, &format!("raw_mode left box-drawing characters: {:?}", o)); } }
+            let on = run(&|c| c.link_footnotes(true)); let off = run(&|c| c.link_footnotes(false));
+            if let (Some(on), Some(off)) = (on, off) {
+                if !markers(&off).is_empty() || off.lines().any(|l| l.starts_with('[') && l.contains("]: ")) { rep.found(&input, &format!("link_footnotes(false) left references or a list: {:?}", off)); }
+                if rules_of(&on) != rules_of(&off) { rep.found(&input, &format!("link_footnotes(false) moved the table rules: {:?} vs {:?}", rules_of(&off), rules_of(&on))); }
             }
         }
     }
